@@ -5,8 +5,8 @@ import AsModel.Runtime.Label
 (the crate's side of the renderer's contract, and the fallback listing)
 
 The renderer (`annotate-snippets`) is not modelled; its observed precondition is:
-it does not panic iff every annotation offset that lies inside the text is on a
-character boundary (offsets past the end are tolerated).  The theorems below say
+it does not panic iff the annotation ends at most one byte past the end of the text
+and every annotation offset that lies inside the text is on a character boundary.  The theorems below say
 the spans the crate hands over meet that precondition for **every** source text
 and **every** recorded `(line, column)` range — including ranges outside the text
 and texts edited after compilation.
@@ -17,7 +17,8 @@ namespace AsModel.Runtime
 boundary, and ends on a character boundary or past the end of the text. -/
 theorem C06_spans_meet_contract (s : List Char) (ls cs le ce : Nat) :
     let sp := annotationSpan s ls cs le ce
-    sp.1 < sp.2 ∧ IsBoundary s sp.1 ∧ (IsBoundary s sp.2 ∨ utf8Len s < sp.2) := by
+    sp.1 < sp.2 ∧ IsBoundary s sp.1 ∧ (IsBoundary s sp.2 ∨ utf8Len s < sp.2) ∧
+      sp.2 ≤ utf8Len s + 1 := by
   intro sp
   obtain ⟨i, hi, hstart⟩ := byteOffsetOf_boundary s ls cs
   obtain ⟨j, hj, hend⟩ := byteOffsetOf_boundary s le ce
@@ -32,7 +33,9 @@ theorem C06_spans_meet_contract (s : List Char) (ls cs le ce : Nat) :
     have hpos := Char.utf8Size_pos s[i]
     simp only [h1]
     rw [h2]
-    refine ⟨by omega, ⟨i, hi, rfl⟩, Or.inl ?_⟩
+    have hb1 := utf8Len_take_le s (i + 1)
+    have hb2 := utf8Len_take_le s j
+    refine ⟨by omega, ⟨i, hi, rfl⟩, Or.inl ?_, by omega⟩
     rcases Nat.le_total (utf8Len (s.take j)) (utf8Len (s.take (i + 1))) with h | h
     · rw [Nat.max_eq_right h]; exact ⟨i + 1, hlt, rfl⟩
     · rw [Nat.max_eq_left h]; exact ⟨j, hj, rfl⟩
@@ -40,8 +43,19 @@ theorem C06_spans_meet_contract (s : List Char) (ls cs le ce : Nat) :
     subst hie
     simp only [List.take_length, charAtByte_end]
     have := utf8Len_take_le s j
-    refine ⟨by omega, ⟨s.length, Nat.le_refl _, by simp⟩, Or.inr ?_⟩
-    omega
+    refine ⟨by omega, ⟨s.length, Nat.le_refl _, by simp⟩, Or.inr ?_, ?_⟩ <;> omega
+
+/-- The same, on the executable predicate that the correspondence check validates
+against the real renderer: `rendererOk` holds for every span the crate produces. -/
+theorem C06_rendererOk (s : List Char) (ls cs le ce : Nat) :
+    rendererOk s (annotationSpan s ls cs le ce).1 (annotationSpan s ls cs le ce).2 = true := by
+  obtain ⟨_, h2, h3, h4⟩ := C06_spans_meet_contract s ls cs le ce
+  unfold rendererOk
+  simp only [Bool.and_eq_true, Bool.or_eq_true, decide_eq_true_eq]
+  refine ⟨⟨h4, Or.inr ((boundaryB_iff s _).2 h2)⟩, ?_⟩
+  rcases h3 with h | h
+  · exact Or.inr ((boundaryB_iff s _).2 h)
+  · exact Or.inl h
 
 /-- The pinned span construction (before the `fix:` commit) violates the contract:
 with a two-byte character before the position the start offset lands inside it. -/
